@@ -190,7 +190,10 @@ def _visible(cell):
     return TAGS.sub("", cell)
 
 
-def _table_case(cells, ncols, header, style_i, width, indent, aligns):
+SGR_ = re.compile(r"\x1b\[[0-9;]*m")
+
+
+def _table_case(cells, ncols, header, style_i, width, indent, aligns, ansi=False):
     style = getattr(TableStyle, STYLES[style_i])()
     for c, a in enumerate(aligns[:ncols]):
         style.set_column_alignment(c, a)
@@ -201,7 +204,11 @@ def _table_case(cells, ncols, header, style_i, width, indent, aligns):
     for r in rows:
         t.add_row(list(r))
     snapshot = ([list(r) for r in t._rows], list(t._header_row))
-    io = BufferedIO()
+    if ansi:
+        from clikit.formatter import AnsiFormatter
+        io = BufferedIO(formatter=AnsiFormatter(forced=True))       # decorated output: the same rectangle once the escape sequences are taken out
+    else:
+        io = BufferedIO()
     io.set_terminal_dimensions(Rectangle(width, 20))
     # precondition of the property: at least one character per column beside borders and padding
     bs = style.border_style
@@ -240,6 +247,10 @@ def _table_case(cells, ncols, header, style_i, width, indent, aligns):
     if ([list(r) for r in t._rows], list(t._header_row)) != snapshot:
         return False                                    # rendering does not modify the table
     out = io.fetch_output()
+    if ansi:
+        if "\x1b[" not in out and any(TAGS.search(c) for c in cells):
+            return False
+        out = SGR_.sub("", out)
     lines = out.split("\n")
     if lines and lines[-1] == "":
         lines.pop()
@@ -305,7 +316,7 @@ def table22(c0: int, c1: int, c2: int, c3: int, header: bool, indent: bool, a0: 
     post: _
     """
     cells = [CELLS22[conc_int(c, 0, 3)] for c in (c0, c1, c2, c3)]
-    return untraced(_table_case, cells, 2, conc_bool(header), PART["style"], PART["width"], 4 if conc_bool(indent) else 0, [conc_int(a0, 0, 2), conc_int(a1, 0, 2)])
+    return untraced(_table_case, cells, 2, conc_bool(header), PART["style"], PART["width"], 4 if conc_bool(indent) else 0, [conc_int(a0, 0, 2), conc_int(a1, 0, 2)], PART.get("ansi", False))
 
 
 def table13(c0: int, c1: int, c2: int, header: bool, indent: bool, a0: int, a1: int, a2: int) -> bool:
@@ -316,6 +327,30 @@ def table13(c0: int, c1: int, c2: int, header: bool, indent: bool, a0: int, a1: 
     """
     cells = [CELLS[conc_int(c, 0, 4)] for c in (c0, c1, c2)]
     return untraced(_table_case, cells, 3, conc_bool(header), PART["style"], PART["width"], 4 if conc_bool(indent) else 0, [conc_int(a, 0, 2) for a in (a0, a1, a2)])
+
+
+EDGE_ROWS = {2: [["aaaaaaaaaaa bbbbbbbbbbb ccccccccccc", "1234567890123456789012345"], ["id1", "dd ee"]],
+             3: [["aaaaaaaaaaa bbbbbbbbbbb", "1234567890123456789", "id1 id2"], ["x", "yy yy", "zzz"]]}
+
+
+def table_edge(width: int, indent: int, header: bool) -> bool:
+    """
+    pre: PART["lo"] <= width <= PART["hi"] and 0 <= indent <= 2
+    post: _
+    """
+    # terminal widths AROUND the natural width of the table (a little too narrow, exactly fitting, a little too wide), every indentation 0..2
+    rows = EDGE_ROWS[PART["ncols"]]
+    cells = [c for r in rows for c in r]
+    return untraced(_table_case, cells, PART["ncols"], conc_bool(header), PART["style"], conc_int(width, PART["lo"], PART["hi"]), conc_int(indent, 0, 2), [0] * PART["ncols"], PART.get("ansi", False))
+
+
+def _natural_total(ncols, style_i):
+    style = getattr(TableStyle, STYLES[style_i])()
+    bs = style.border_style
+    rows = EDGE_ROWS[ncols]
+    nat = sum(max(len(r[c]) for r in rows) for c in range(ncols))
+    border_w = len(bs.line_vl_char) + (ncols - 1) * len(bs.line_vc_char) + len(bs.line_vr_char)
+    return nat + border_w + ncols * len(style.cell_format.format(""))
 
 
 def table_twin(c0: int, c1: int, c2: int, c3: int, header: bool, indent: bool, a0: int, a1: int) -> bool:
@@ -346,5 +381,13 @@ def conditions(tier):
         for w in ((24, 36, 50) if quick else (22, 24, 30, 36, 44, 50, 64)):
             conds.append({"name": "table1x3[%s,w=%d]" % (STYLES[style], w), "fn": table13, "timeout": t, "part": {"style": style, "width": w, "tie_align": True if quick else None},
                           "bounds": "3 columns x 1 row, same menus, %s style, terminal width %d" % (STYLES[style], w)})
+    for style in range(4):
+        for ncols in (2, 3):
+            tot = _natural_total(ncols, style)
+            conds.append({"name": "table_edge[%s,%dcols]" % (STYLES[style], ncols), "fn": table_edge, "timeout": t, "part": {"style": style, "ncols": ncols, "lo": tot - 12, "hi": tot + 3},
+                          "bounds": "%d columns x 2 rows (natural width %d incl. borders), %s style: EVERY terminal width in [%d, %d] x indentation 0..2 x header on/off" % (ncols, tot, STYLES[style], tot - 12, tot + 3)})
+    for style, w in ((0, 40), (1, 28), (2, 40), (3, 56)):
+        conds.append({"name": "table2x2[%s,w=%d,ansi]" % (STYLES[style], w), "fn": table22, "timeout": t, "part": {"style": style, "width": w, "indent": False, "tie_align": True, "ansi": True},
+                      "bounds": "as table2x2, on a DECORATED output (escape sequences removed before measuring)"})
     conds.append({"name": "table_twin", "fn": table_twin, "timeout": t, "expect": "refute", "part": {"style": 0, "width": 40}, "bounds": "reachability twin"})
     return conds
